@@ -31,14 +31,20 @@ fn parse_game_version() -> binrw::BinResult<GameVersion> {
 
 #[binrw::writer(writer, endian)]
 fn write_game_version(input: &GameVersion) -> binrw::BinResult<()> {
-    let mut ver = input.to_string().as_bytes().to_vec();
-    if ver.len() > 8 {
-        ver.truncate(8);
-    } else {
-        let remaining = 8 - ver.len();
-        if remaining > 0 {
-            ver.put_bytes(0, remaining);
-        }
+    let text = input.to_string();
+    // The field holds 8 bytes and must read back as a version: a text that is longer, or that the
+    // reader would reject (e.g. a letter outside ASCII), is refused rather than cut or sent as is.
+    if text.len() > 8 || GameVersion::from_str(&text).is_err() {
+        return Err(binrw::Error::AssertFail {
+            pos: writer.stream_position()?,
+            message: format!("game version {text:?} does not fit the 8 byte version field"),
+        });
+    }
+
+    let mut ver = text.into_bytes();
+    let remaining = 8 - ver.len();
+    if remaining > 0 {
+        ver.put_bytes(0, remaining);
     }
 
     ver.write_options(writer, endian, ())?;
